@@ -43,7 +43,7 @@ fn scenarios(tier: Tier) -> Vec<Scenario> {
 	v
 }
 
-fn universe(sc: &uni::Scratch, name: &str) -> Tree {
+pub fn universe(sc: &uni::Scratch, name: &str) -> Tree {
 	match name {
 		"forks" => {
 			let mut tb = TreeBuilder::new(sc, 21, false);
@@ -99,7 +99,7 @@ fn universe(sc: &uni::Scratch, name: &str) -> Tree {
 	}
 }
 
-fn parse_events(tree: &Tree, names: &[&str]) -> Vec<Ev> {
+pub fn parse_events(tree: &Tree, names: &[&str]) -> Vec<Ev> {
 	let mut out = vec![];
 	for s in names {
 		if *s == "*main" {
